@@ -88,10 +88,11 @@ Proof.
 Qed.
 
 Theorem si_batch_invisible : forall c pv fs b f row k,
+  thr_masks_zero (si_thr0 c) (si_fixed_Fz c) ->
   nth_error fs b = Some f -> nth_error (si_batch c pv fs) b = Some row ->
   nth_error (sf_kps f) k = Some None -> nth_error row k = Some (None, None).
 Proof.
-  intros c pv fs b f row k Hf Hrow Hk.
+  intros c pv fs b f row k Hz Hf Hrow Hk.
   rewrite (si_batch_nth c pv fs b f Hf) in Hrow. inversion Hrow; subst. now apply si_run_invisible.
 Qed.
 
@@ -141,7 +142,8 @@ Theorem td_batch_within : forall c fs b f row inst,
   (0 < ncells (tg_nix (td_geom c')) (td_osi c'))%Z -> (0 < ncells (tg_niy (td_geom c')) (td_osi c'))%Z ->
   exists an, In an (tf_animals f) /\
     length (ti_pts inst) = length (an_kps an) /\
-    (forall k, nth_error (an_kps an) k = Some None -> nth_error (ti_pts inst) k = Some (None, None)) /\
+    (forall k, thr_masks_zero (td_thr0 c) (td_fixed_Fz c) ->
+       nth_error (an_kps an) k = Some None -> nth_error (ti_pts inst) k = Some (None, None)) /\
     (forall k x y px py a,
        nth_error (an_kps an) k = Some (Some (x, y)) ->
        nth_error (ti_pts inst) k = Some (Some (px, py), Some a) ->
@@ -204,7 +206,7 @@ Proof. intros. rewrite co_batch_is_per_frame. now apply (map_nth_error (fun f =>
 (* max_height = max_width = 64; a 32x32 frame (eff_scale 2) and a 64x64 frame (eff_scale 1) in one batch *)
 Definition wit_mb : si_cfg :=
   {| si_H := 64; si_W := 64; si_mh := Some 64%Z; si_mw := Some 64%Z; si_scale := 1; si_ms := 1; si_os := 2;
-     si_sigma := 3 # 2; si_lthr := - (1609438 # 1000000); si_fixed_F8 := true |}.
+     si_sigma := 3 # 2; si_lthr := - (1609438 # 1000000); si_fixed_F8 := true; si_thr0 := false; si_fixed_Fz := false |}.
 Definition wit_small : sframe := {| sf_H := 32; sf_W := 32; sf_kps := [Some (10, 12)] |}.
 Definition wit_large : sframe := {| sf_H := 64; sf_W := 64; sf_kps := [Some (40, 24)] |}.
 
